@@ -217,6 +217,15 @@ fn supervisor(cfg: BCfg, phc: Option<clock_bound_d::PhcInfo>, st: SharedB, path:
         if verif_rt::now_ns() >= end {
             break;
         }
+        if d.delete_before {
+            // the runtime directory is cleaned up while the daemon is down: the next daemon creates
+            // a new file; clients keep the old one mapped
+            st.lock().unwrap().file_removed();
+            let _ = std::fs::remove_file(&path);
+            verif_rt::shm::files_changed();
+            verif_rt::mark("env:delete", i as u64, 0, 0);
+            st.lock().unwrap().out.probe("fault.segment_file_removed_between_incarnations");
+        }
         if d.damage_before {
             // third-party damage: one magic word of the segment file is overwritten in place
             // (attached clients keep their mapping; the daemon will find the file unusable)
@@ -273,7 +282,12 @@ fn synthetic_thread(cfg: BCfg, path: PathBuf, st: SharedB, world: SharedWorld, s
             let now = verif_rt::now_ns();
             let mono = now.div_euclid(tick) * tick;
             let rs = r.range(5, 5000) * SEC + r.range(0, 999_999_999);
-            let span: i64 = *r.pick(&[5 * SEC, 5 * SEC + 1, 6 * SEC, 1000 * SEC, 1000 * SEC, rs]);
+            let mut span: i64 = *r.pick(&[5 * SEC, 5 * SEC + 1, 6 * SEC, 1000 * SEC, 1000 * SEC, rs]);
+            if r.chance(6) {
+                // records no daemon writes: void-after before, at or just after as-of (C14 speaks of
+                // all records; C06 only of those whose void-after is at least 5 s after as-of)
+                span = *r.pick(&[0i64, 1, -1, -1_001, -5 * SEC, -3_600 * SEC, 4 * SEC, 999]);
+            }
             // age = mono - as_of
             let age: i64 = match r.below(15) {
                 // just past the wrap-around points of narrow time representations (u32/i32 us, u16 s, u32/i32 ms)
@@ -400,6 +414,9 @@ fn pairs_thread(cfg: BCfg, path: PathBuf, st: SharedB, seed: u64) {
             }
         }
         let mut held: Option<(Client, Client)> = None;
+        // a pair opened once and queried at every instant: the two libraries never part ways,
+        // whatever happens to the file they have mapped
+        let mut lasting: Option<(Client, Client)> = None;
         for _ in 0..cfg.pairs {
             let t = verif_rt::now_ns() + *r.pick(&[50_000_000i64, 500_000_000, 1_100_000_000, 2_500_000_000]) + r.range(0, 100_000_000);
             if t >= end {
@@ -409,6 +426,19 @@ fn pairs_thread(cfg: BCfg, path: PathBuf, st: SharedB, seed: u64) {
             // a pair opened at the previous instant and not queried since: the first query of
             // each, at one frozen instant, must agree as well (neither library may have read the
             // segment earlier than the other)
+            if lasting.is_none() {
+                lasting = verif_rt::freeze(|| match (Client::open(1, &path), Client::open(3, &path)) {
+                    (Ok(a), Ok(b)) => Some((a, b)),
+                    _ => None,
+                });
+            } else if let Some((lr, lc)) = lasting.as_mut() {
+                let (a, b) = verif_rt::freeze(|| (guarded_now(lr).0, guarded_now(lc).0));
+                let mut s = st.lock().unwrap();
+                s.out.probe("judged.lasting_pair_queries");
+                if !same_result(&a, &b) {
+                    s.out.violate(&["C17"], "rust_and_c_clients_disagree", "lasting_pair".into(), format!("opened together, queried together at every instant: Rust client {a:?}, C client {b:?}"));
+                }
+            }
             if let Some((mut hr, mut hc)) = held.take() {
                 let (a, b) = verif_rt::freeze(|| (guarded_now(&mut hr).0, guarded_now(&mut hc).0));
                 verif_rt::freeze(|| {
